@@ -1017,6 +1017,8 @@ func (area) Run(c *core.Ctx) error {
 			caseWorker(c, r)
 		case i == 11:
 			caseRound10Fixed(c, r)
+		case i == 12:
+			caseLarge(c, r)
 		default:
 			switch k := r.Intn(100); {
 			case k < 42:
